@@ -8,8 +8,10 @@ import (
 	"bytes"
 	"encoding/json"
 	"fmt"
+	"math"
 	"math/rand"
 	"os"
+	"strconv"
 	"sync"
 	"testing"
 
@@ -82,20 +84,35 @@ type sline struct {
 func ai(x interface{}) int { return int(x.(float64)) }
 
 type streamRun struct {
-	w, r   *p2pconn.SecretConnection
-	wc, rc *memConn
-	dir    int
-	total  int
-	sent   [][]byte // sealed frames as written (pristine copies)
-	rev    [][]byte
-	rng    *rand.Rand
+	w, r    *p2pconn.SecretConnection
+	wc, rc  *memConn
+	dir     int
+	total   int
+	sent    [][]byte // sealed frames as written (pristine copies)
+	rev     [][]byte
+	rng     *rand.Rand
+	base    uint64   // real frame counter the pair started at
+	archive [][]byte // frames of this session and direction with counters 0, 1, 2
 }
 
 // basePair is a real handshake whose session keys are forked (VerifFork: same keys, nonces at zero, fresh wire)
 // for up to forksPerHandshake replayed behaviours.
 type basePair struct {
-	p    *scPair
-	uses int
+	p       *scPair
+	uses    int
+	archive [2][][]byte // per direction: the session's first frames (counters 0, 1, 2), sealed by a fork at zero counters
+}
+
+const archiveFrames = 3
+
+// streamBase: the real frame counter the pair under test starts at (CONN_BASE, decimal; VerifForkAt) -- a session
+// that has already carried that many frames in each direction.  The model's Base stands for any value >= ArchN.
+func streamBase() uint64 {
+	b, err := strconv.ParseUint(os.Getenv("CONN_BASE"), 10, 64)
+	if err != nil {
+		return 0
+	}
+	return b
 }
 
 const forksPerHandshake = 48
@@ -115,11 +132,20 @@ func newStreamRun(n int) (*streamRun, error) {
 		bp = &basePair{p: p}
 	}
 	bp.uses++
+	base := streamBase()
+	if base > 0 && bp.archive[0] == nil {
+		// the adversary's archive: what this very session (same keys) put on the wire at its beginning
+		xa, xb := newMemConn("xa", false), newMemConn("xb", false)
+		bp.archive[0] = sealSome(bp.p.sa.VerifFork(xa), xa, archiveFrames)
+		bp.archive[1] = sealSome(bp.p.sb.VerifFork(xb), xb, archiveFrames)
+	}
 	ca, cb := newMemConn("a", false), newMemConn("b", false)
 	link(ca, cb)
-	sa, sb := bp.p.sa.VerifFork(ca), bp.p.sb.VerifFork(cb)
+	sa, sb := bp.p.sa.VerifForkAt(ca, base, base), bp.p.sb.VerifForkAt(cb, base, base)
+	arch := bp.archive
 	basePool.Put(bp)
-	sr := &streamRun{w: sa, r: sb, wc: ca, rc: cb, dir: n % 2}
+	sr := &streamRun{w: sa, r: sb, wc: ca, rc: cb, dir: n % 2, base: base}
+	sr.archive = arch[sr.dir]
 	if sr.dir == 1 {
 		sr.w, sr.r, sr.wc, sr.rc = sb, sa, cb, ca
 	}
@@ -233,6 +259,12 @@ func (sr *streamRun) manip(a []interface{}) error {
 			return fmt.Errorf("replay %v: %d frames sent, %d segments", a, len(sr.sent), len(w))
 		}
 		w = insertAt(w, j, append([]byte(nil), sr.sent[i]...))
+	case "archive": // a frame recorded at the beginning of this session (counter a[2] < base), same keys, same direction
+		i := ai(a[2])
+		if i < 0 || i >= len(sr.archive) || j > len(w) {
+			return fmt.Errorf("archive %v: %d archived frames, %d segments", a, len(sr.archive), len(w))
+		}
+		w = insertAt(w, j, append([]byte(nil), sr.archive[i]...))
 	case "inject":
 		if j > len(w) {
 			return fmt.Errorf("inject %v: %d segments", a, len(w))
@@ -292,7 +324,22 @@ func TestStream(t *testing.T) {
 			res.Mismatch(pfx+"handshake:honest-pair-fails", err.Error(), nil)
 			return
 		}
-		detail := map[string]interface{}{"hist": l.H, "dir": sr.dir, "seed": mbt.Seed(), "line": n, "cfg": tag}
+		detail := map[string]interface{}{"hist": l.H, "dir": sr.dir, "seed": mbt.Seed(), "line": n, "cfg": tag, "base": fmt.Sprint(sr.base)}
+		// the code panics by design rather than let the counter pass 2^64-1 ("can't increase nonce without overflow"):
+		// that ends the session; behaviours that would seal more frames than there is room for are not replayed
+		frames := uint64(0)
+		for _, a := range l.H {
+			switch a[0].(string) {
+			case "w":
+				frames += uint64((ai(a[1]) + 1023) / 1024)
+			case "wf":
+				frames += uint64(ai(a[2]))
+			}
+		}
+		if frames > math.MaxUint64-sr.base {
+			res.Add("skipped_counter_would_overflow", 1)
+			return
+		}
 		nontrivial := false
 		delivered, manips, readFaults := 0, 0, 0
 		for k, a := range l.H {
